@@ -44,6 +44,54 @@ func checkPopulate(p *engine.Prog, r *engine.Report) {
 				completed = extractOf(call, 0)
 			}
 		}
+		if completed != nil {
+			// R2.10: the scheme is looked at only to choose a default port. The completion rejects a target (non-nil error)
+			// only where a port has to be added: under the true result of its "needs a port" predicate on the address.
+			// Prometheus keeps a target that has a port whatever its scheme label says; a rejection fails the whole group here.
+			if cal := completed.Tuple.(*ssa.Call).Call.StaticCallee(); cal != nil && len(cal.Blocks) > 0 && len(cal.Params) == 2 {
+				cfi := p.Info(cal)
+				var need []*ssa.Call
+				for _, in := range allInstrs(cal) {
+					c, ok := in.(*ssa.Call)
+					if !ok || len(c.Call.Args) != 1 || c.Call.Args[0] != ssa.Value(cal.Params[0]) {
+						continue
+					}
+					if b, ok := c.Type().Underlying().(*types.Basic); ok && b.Kind() == types.Bool {
+						need = append(need, c)
+					}
+				}
+				var rprobs []string
+				nRej := 0
+				for _, ret := range returnsOf(cal) {
+					if len(ret.Results) != 2 {
+						continue
+					}
+					ev := returnedValue(ret, 1)
+					if c, ok := ev.(*ssa.Const); ok && c.Value == nil {
+						continue
+					}
+					nRej++
+					okk := false
+					for _, nc := range need {
+						if g, _ := cfi.Implies(ret.Block(), engine.TrueAtom(cfi.T(nc).S)); g {
+							okk = true
+						}
+					}
+					if len(need) == 0 {
+						for _, g := range cfi.Guards(ret.Block()) {
+							if strings.Contains(g, cfi.T(cal.Params[0]).S) {
+								okk = true
+							}
+						}
+					}
+					if !okk {
+						rprobs = append(rprobs, "the error return at "+p.Rel(ret.Pos())+" is reached for an address that already has a port (guards: "+strings.Join(cfi.Guards(ret.Block()), " ∧ ")+")")
+					}
+				}
+				r.Check(len(rprobs) == 0, "R2.10-scheme-only-for-default-port", "rejections of "+engine.FuncName(cal), engine.FuncName(cal)+" ("+p.Rel(cal.Pos())+")",
+					fmt.Sprintf("each of the %d error returns of the port completion is reached only when the address needs a port (the scheme of a target with a port is not validated, as in Prometheus)", nRej), strings.Join(rprobs, "; "))
+			}
+		}
 		if completed == nil {
 			probs = append(probs, "the address of the relabelled label set is not completed with the scheme's default port")
 		} else {
